@@ -9,7 +9,7 @@ import la_common, interp_common, C02, C04, C05, C06, C07, C12, C13, C17, C19, nu
 EXPLANATION = ('C10: for each guarded entry point the request is taken on both sides of its guard and executed symbolically on the real code (interpreter with a concrete object memory that reports every load/store outside a live object): '
                'a meaningless request must end in exit() after a diagnostic on every path with no out-of-bounds access before; a meaningful one must return on every path. '
                'Own sweeps: vector / matrix indices (size-1, size, size+1, UINT_MAX, 0-row matrices), shapes equal / transposed / off by one, square-only operations, Cross, Interpolation constructors (lengths 0..4, non-increasing abscissae, ragged tables, 2D), '
-               'plus the guard obligations of C02 (incl. the CBMC entry-logic harnesses), C04, C05, C06, C07, C12, C13, C17, C19 re-run under this property; CBMC harness: Vector::operator[] with an arbitrary unsigned index (bounds and pointer checks of the generated C).')
+               'plus the guard obligations of C02 (incl. the CBMC entry-logic harnesses), C04, C05, C06, C07, C12, C13, C17, C19 and the missing-file guard of the text import (C20: Import_List / Import_Table on a file that cannot be opened) re-run under this property; CBMC harness: Vector::operator[] with an arbitrary unsigned index (bounds and pointer checks of the generated C).')
 BOUNDS = {'quick': {'max_dim': 2}, 'thorough': {'max_dim': 3}}
 NOT_DECIDED = ['file-system guards (Import_* on a missing file, Configuration): I/O is not encoded', 'sanitizer runs as such: the interpreter memory model and CBMC pointer checks stand in for ASan/UBSan within the bounds', 'column index of Matrix::operator[][j] (std::vector::operator[] is unchecked by design; the property names the row index)']
 ASSUMPTIONS = ['doubles exact reals in the EA sweeps; CBMC bit-precise', 'operator new never fails', 'sizes up to the bound; indices include 0xffffffff']
@@ -140,6 +140,9 @@ def job_borrowed(which):
     if which == 'C13-method': return C13.job_unknown_method()
     if which == 'C17-guards': return [o for o in C17.job_round() if 'rejected' in o['name'] or 'accepted' in o['name']] + [o for o in C17.job_vsh(0) if 'rejected' in o['name']]
     if which == 'C19-lists': return [o for o in C19.job_lists(2, 1) + C19.job_lists(2, 2) + C19.job_closest(3) if 'ragged' in o['name'] or 'sub-list' in o['name'] or 'unsorted' in o['name']]
+    if which == 'C20-missing-file':
+        import C20
+        return C20.job_missing_file()
     if which == 'C09-domain':
         import C09
         return [o for o in C09.job_locate(3, 0, 0) + C09.job_locate(4, 2, 1) if 'exit-only-outside' in o['name'] or 'bracket' in o['name']]
@@ -162,7 +165,7 @@ def jobs(ctx):
         for n2 in range(1, 5):
             if n1 <= 3 or n2 <= 3: J.append((job_vectors, (n1, n2)))
     J.append((job_interp_ctor, ())); J.append((job_interp_units, (3,)))
-    for w in ('C02-entry', 'C06-guards', 'C07-guards', 'C12-length', 'C13-method', 'C17-guards', 'C19-lists', 'C09-domain'): J.append((job_borrowed, (w,)))
+    for w in ('C02-entry', 'C06-guards', 'C07-guards', 'C12-length', 'C13-method', 'C17-guards', 'C19-lists', 'C09-domain', 'C20-missing-file'): J.append((job_borrowed, (w,)))
     for h in bp.harnesses('C10.c', ctx.tier) + bp.harnesses('C02.c', ctx.tier): J.append((job_bp, (h,)))
     return J
 
@@ -173,6 +176,9 @@ def replay(ctx, o):
     if key.startswith('C09/'):
         import C09
         return C09.replay(ctx, o)
+    if key.startswith('C20/'):
+        import C20
+        return C20.replay(ctx, o)
     if o['backend'] == 'BP':
         if 'in_i' in m:
             r = la_common.native_la(ctx, 53, [1.0, 2.0, 3.0], i=m['in_i'] & 0xffffffff, vecA=True)
